@@ -775,7 +775,10 @@ theorem fd_run_count : ∀ (evs : List FdPaths.PEv) (held held' : List String), 
                 have := len_erase_str m.1
                 simp only [List.length_cons]; omega
               · rw [if_neg m] at hs; simp at hs
-            · simp [c3] at hs
+            · simp only [c3, if_false] at hs
+              by_cases c4 : e.1 = "release"
+              · simp [c4] at hs; subst hs; simp
+              · simp [c4] at hs
       simp only [net]
       omega
 
@@ -799,7 +802,13 @@ theorem fd_paths_balanced (p : FdPaths.Path) (hp : p ∈ Gen.FdPaths.paths) (he 
 example : pathOk ("get_file_for_stream", "return", "((void*)0)", [("create", "fd_dup", "", "dup($1->handle)")]) = false := by decide
 example : pathOk ("f", "return", "", [("create", "fd", "", "k"), ("close", "fd", "", "k"), ("close", "fd", "", "k")]) = false := by decide
 example : pathOk ("f", "return", "", [("create", "fd", "", "k"), ("create", "fd", "", "k"), ("close", "fd", "", "k")]) = false := by decide
-example : Gen.FdPaths.paths.length ≥ 40 := by decide
+example : Gen.FdPaths.paths.length ≥ 80 := by decide
+/-- net/listen: a second socket() into a local that still holds the first one (the `close` before `continue` lost), the listen-failure
+    path without its close, and get_stdio_for_handle returning NULL while it owns the pipe end are rejected -/
+example : pathOk ("cfun_net_listen", "raise", "janet_panic",
+    [("create", "sfd", "", "socket($2->ai_family)"), ("create", "sfd", "", "socket($2->ai_family)"), ("close", "sfd", "", "close($1)#3")]) = false := by decide
+example : pathOk ("cfun_net_listen", "raise", "janet_panicf", [("create", "sfd", "", "socket(1)")]) = false := by decide
+example : pathOk ("get_stdio_for_handle", "return", "((void*)0)", [("create", "handle", "", "entry:handle")]) = false := by decide
 
 end FdPathsSec
 
